@@ -95,6 +95,7 @@ def check(case):
     pool, ops = case["pool"], case["ops"]
     labels = []
     solvers = []  # (i, j, solver, problem, params)
+    buffers = {}  # per re-used solver: start-point buffers overwritten in place between solves
     model = {}
     history = []  # keys in order
     reused_ok = False
@@ -109,6 +110,16 @@ def check(case):
         else:
             _, _, solver, problem, params = solver_entry
             x0, y0 = c["start"].get("x0"), c["start"].get("y0")
+            # multi-start pattern: the caller re-uses one buffer per solver and overwrites it in place
+            bufs = buffers.setdefault(id(solver), {})
+            if isinstance(x0, list):
+                xb = bufs.setdefault("x", np.zeros(len(x0)))
+                xb[:] = x0
+                x0 = xb
+            if isinstance(y0, list):
+                yb = bufs.setdefault("y", np.zeros(len(y0)))
+                yb[:] = y0
+                y0 = yb
         out = run_solve(problem, params, x0, y0, solver=solver)
         nsolves += 1
         return out
@@ -158,7 +169,7 @@ def check(case):
             if out.digest != dg:
                 a = out
                 return violation(
-                    f"history-dependence|{how}|{pool['params'][j]['params'].get('step_control_type')}|{pool['params'][j]['params'].get('penalty_update')}",
+                    f"history-dependence|{how}",
                     f"op {idx} {op}: solve of key {key} ({how} solver, {between} other solves since the last one) differs from its first solve at op {first_idx}: "
                     f"{a.result.status.name if a.result else repr(a.exc)} after {len(a.trials)} steps",
                     labels, sub=nsolves, key=list(key),
